@@ -231,4 +231,27 @@ theorem decEntries_perm (gk gv : Json → Except Err Val) {ms ns : List (String 
   refine ⟨es', hes', by simp, by simp, ?_⟩
   exact (hperm.pairwise_iff (fun {x y} hxy => by rw [keyEq_symm]; exact hxy)).mp hpw
 
+/-! ## Go-map values: being expressible does not depend on the order the entries are listed in -/
+
+theorem distinctKeys_iff (es : List (Val × Val)) :
+    distinctKeys es = true ↔ es.Pairwise (fun a b => a.1.keyEq b.1 = false) := by
+  induction es with
+  | nil => simp [distinctKeys]
+  | cons p ps ih =>
+    simp only [distinctKeys, Bool.and_eq_true, Bool.not_eq_eq_eq_not, Bool.not_true, List.any_eq_false,
+      List.pairwise_cons, ih]
+    constructor
+    · rintro ⟨h1, h2⟩
+      exact ⟨fun q hq => by simpa using h1 q hq, h2⟩
+    · rintro ⟨h1, h2⟩
+      exact ⟨fun q hq => by simpa using h1 q hq, h2⟩
+
+/-- being an expressible Go-map value does not depend on the order in which the entries are listed. -/
+theorem valOk_map_perm (b : Bounds) (k e : JTy) {es es' : List (Val × Val)} (hp : es.Perm es')
+    (h : valOk fc (.map b k e) (.map es) = true) : valOk fc (.map b k e) (.map es') = true := by
+  simp only [valOk, Bool.and_eq_true, List.all_eq_true] at h ⊢
+  refine ⟨?_, fun p hp' => h.2 p (hp.mem_iff.mpr hp')⟩
+  rw [distinctKeys_iff] at h ⊢
+  exact (hp.pairwise_iff (fun {x y} hxy => by rw [keyEq_symm]; exact hxy)).mp h.1
+
 end Hive.SerixJson
